@@ -325,7 +325,7 @@ func (m *Model) RunCutset(s *Sink, rule string) {
 // or (un)escaping there — a literal that reached an object unchanged must leave it unchanged.
 func (m *Model) RunObjString(s *Sink, rule string) {
 	rewriting := func(name string) bool {
-		for _, p := range []string{"strings.Trim", "strings.Replace", "strings.ToUpper", "strings.ToLower", "strings.ToTitle", "strings.Title", "strings.Map", "strings.Fields", "strings.NewReplacer", "(*strings.Replacer).", "html.", "unicode.", "regexp.", "(*regexp.Regexp)."} {
+		for _, p := range []string{"strings.Trim", "strings.Replace", "strings.ToUpper", "strings.ToLower", "strings.ToTitle", "strings.Title", "strings.Map", "strings.Fields", "strings.ToValidUTF8", "bytes.ToValidUTF8", "strings.NewReplacer", "(*strings.Replacer).", "html.", "unicode.", "regexp.", "(*regexp.Regexp)."} {
 			if strings.HasPrefix(name, p) {
 				return true
 			}
